@@ -192,18 +192,24 @@ class StringDataEncoding(DataEncoding):
                              f"Encoding must be one of {self._supported_encodings}.")
         self.encoding = encoding
         if encoding not in ['US-ASCII', 'ISO-8859-1', 'Windows-1252', 'UTF-8']:  # for these, byte order doesn't matter
-            if byte_order is None:
-                if "LE" in encoding:
-                    self.byte_order = "leastSignificantByteFirst"
-                elif "BE" in encoding:
-                    self.byte_order = "mostSignificantByteFirst"
-                else:
-                    raise ValueError("Byte order must be specified for multi-byte character encodings.")
+            if "LE" in encoding:
+                self.byte_order = "leastSignificantByteFirst"
+            elif "BE" in encoding:
+                self.byte_order = "mostSignificantByteFirst"
+            elif byte_order is None:
+                raise ValueError("Byte order must be specified for multi-byte character encodings.")
+            else:
+                self.byte_order = byte_order
         else:
             self.byte_order = byte_order
-            if self.byte_order and self.byte_order not in ("leastSignificantByteFirst", "mostSignificantByteFirst"):
-                raise ValueError("If specified, byte order must be one of `leastSignificantByteFirst`, "
-                                 "`mostSignificantByteFirst`.")
+        if self.byte_order and self.byte_order not in ("leastSignificantByteFirst", "mostSignificantByteFirst"):
+            raise ValueError("If specified, byte order must be one of `leastSignificantByteFirst`, "
+                             "`mostSignificantByteFirst`.")
+        # Name of the codec used to decode the raw bytes. For the generic UTF-16 and UTF-32 encodings the byte order
+        # is given separately and has to be made part of the codec name (otherwise Python assumes a BOM or native order)
+        self._codec = encoding
+        if encoding in ("UTF-16", "UTF-32"):
+            self._codec = encoding + ("LE" if self.byte_order == "leastSignificantByteFirst" else "BE")
 
         if termination_character and leading_length_size:
             raise ValueError("Got both a termination character and a leading size for a string encoding.")
@@ -228,7 +234,7 @@ class StringDataEncoding(DataEncoding):
             # e.g. b'\x58' in utf-8 is "X"
             # b'\x21\00' in utf-16-le is "!"
             # b'\x00\x21' in utf-16-be is "!"
-            if len(self.termination_character.decode(encoding)) != 1:
+            if len(self.termination_character.decode(self._codec)) != 1:
                 raise ValueError(f"Termination character {termination_character} appears to be malformed. "
                                  f"Expected a hex string representation of a single character, e.g. '58' for "
                                  f"character 'X' in utf-8 or '5800' for character 'X' in utf-16-le. Note that "
@@ -330,7 +336,7 @@ class StringDataEncoding(DataEncoding):
             if strlen_bits % 8 != 0:
                 raise ValueError(f"String length (in bits) is {strlen_bits}, which is not a multiple of 8. "
                                  "This is an error since strings must be an integer numbers of bytes.")
-            parsed_string = raw_string_buffer.read_as_bytes(strlen_bits).decode(self.encoding)
+            parsed_string = raw_string_buffer.read_as_bytes(strlen_bits).decode(self._codec)
         elif self.termination_character is not None:
             # Only look for the termination character on character (code unit) boundaries. A bytewise search can
             # match the trailing byte(s) of one character followed by the leading byte(s) of the next one in
@@ -342,10 +348,10 @@ class StringDataEncoding(DataEncoding):
             if tchar_byte_index == -1:
                 raise ValueError(f"Reached the end of the raw string buffer {raw_string_buffer} without finding the "
                                  f"termination character {self.termination_character}")
-            parsed_string = raw_string_buffer.read_as_bytes(tchar_byte_index * 8).decode(self.encoding)
+            parsed_string = raw_string_buffer.read_as_bytes(tchar_byte_index * 8).decode(self._codec)
         else:
             # Indicates there is no further parsing. The raw string value is the whole string value.
-            parsed_string = raw_string_buffer.decode(self.encoding)
+            parsed_string = raw_string_buffer.decode(self._codec)
 
         return common.StrParameter(parsed_string, bytes(raw_string_buffer))
 
@@ -458,6 +464,9 @@ class StringDataEncoding(DataEncoding):
         : ElementTree.Element
         """
         element = elmaker.StringDataEncoding(encoding=self.encoding)
+        if self.encoding in ("UTF-16", "UTF-32"):
+            # The byte order of these encodings cannot be inferred from their name
+            element.attrib["byteOrder"] = self.byte_order
 
         if self.fixed_length:
             size_element = elmaker.SizeInBits(
